@@ -123,6 +123,23 @@ def check_stream(ctx, md, toks, env, count=True):
             if k.parent is not root:
                 errs.append(("tree-links", "top-level node's parent is not the root"))
                 break
+    # --- nodes handed out by the tree stay linked after the caller dropped the root ---------------------------------
+    if root is not None and (not count or ctx.counters["streams"] % 8 == 0):
+        import gc
+        nodes = list(root.walk(include_self=False))
+        top = list(root.children)
+        n_top = len(top)
+        del root
+        gc.collect()
+        for nd in nodes[:200]:
+            par = nd.parent
+            if par is None:
+                errs.append(("tree-links-after-root-dropped", f"node {nd.type} lost its parent once the root object was released"))
+                break
+            if not any(c is nd for c in par.children):
+                errs.append(("tree-links-after-root-dropped", f"node {nd.type} is not among its parent's children"))
+                break
+        cnt("tree.nodes_checked_without_root", min(200, len(nodes)))
     # --- repeatable rendering -----------------------------------------------------------------------------------
     html2 = md.renderer.render(toks, md.options, env)
     cnt("rendered_twice")
